@@ -14,10 +14,10 @@ import (
 	"bufio"
 	"bytes"
 	"compress/gzip"
-	"io"
 	"encoding/json"
 	"flag"
 	"fmt"
+	"io"
 	"os"
 	"os/exec"
 	"path/filepath"
@@ -36,6 +36,17 @@ var (
 	verifDir = envOr("VERIF_DIR", "/verif")
 	repoDir  = envOr("VERIF_REPO", "/repo")
 )
+
+// outDir is where evidence and replays go: /verif normally, a scratch directory
+// for screening runs against an alternative tree.
+func outDir() string {
+	if alt := os.Getenv("VERIF_ALT_TREE"); alt != "" {
+		d := filepath.Join(os.TempDir(), "verif-screen", filepath.Base(alt))
+		os.MkdirAll(d, 0o755)
+		return d
+	}
+	return verifDir
+}
 
 func envOr(k, d string) string {
 	if v := os.Getenv(k); v != "" {
@@ -59,7 +70,13 @@ type built struct {
 func buildWorker(race bool) (*built, error) {
 	dir := filepath.Join(verifDir, ".build", strconv.Itoa(os.Getpid()))
 	os.RemoveAll(dir)
-	ov, st, err := instr.Run(repoDir, filepath.Join(dir, "gen"), filepath.Join(verifDir, "rt", "verifrt", "rt.go"), filepath.Join(verifDir, "overlay"))
+	// VERIF_ALT_TREE (screening aid): instrument another checkout of the repository,
+	// keyed as /repo in the overlay; registered commands never set it.
+	src := repoDir
+	if alt := os.Getenv("VERIF_ALT_TREE"); alt != "" {
+		src = alt
+	}
+	ov, st, err := instr.RunKeyed(src, repoDir, filepath.Join(dir, "gen"), filepath.Join(verifDir, "rt", "verifrt", "rt.go"), filepath.Join(verifDir, "overlay"))
 	if err != nil {
 		return nil, fmt.Errorf("instrument: %v", err)
 	}
@@ -461,14 +478,14 @@ func runCheck(prop, tier string, curate bool) int {
 	// --- confirm novel failures by replaying them 5x, then report
 	violations := 0
 	maxReport := 25
-	os.MkdirAll(filepath.Join(verifDir, "replays"), 0o755)
+	os.MkdirAll(filepath.Join(outDir(), "replays"), 0o755)
 	var flaky []string
 	for i, f := range novel {
 		if i >= maxReport {
 			break
 		}
 		rp := proto.Replay{Property: prop, ID: f.ID, Group: f.Group, Class: f.Class, Case: f.Case, Detail: f.Detail}
-		path := filepath.Join(verifDir, "replays", fmt.Sprintf("%s-%s.json", prop, f.ID))
+		path := filepath.Join(outDir(), "replays", fmt.Sprintf("%s-%s.json", prop, f.ID))
 		ok := 0
 		for k := 0; k < 5; k++ {
 			rr, err := execReplay(b.worker, rp)
@@ -676,9 +693,9 @@ func writeEvidence(prop, tier string, seed int, s *proto.Summary, violations, un
 	if s.Assumptions == nil {
 		ev["assumptions"] = []string{}
 	}
-	os.MkdirAll(filepath.Join(verifDir, "evidence"), 0o755)
+	os.MkdirAll(filepath.Join(outDir(), "evidence"), 0o755)
 	b, _ := json.MarshalIndent(ev, "", " ")
-	os.WriteFile(filepath.Join(verifDir, "evidence", prop+".json"), append(b, '\n'), 0o644)
+	os.WriteFile(filepath.Join(outDir(), "evidence", prop+".json"), append(b, '\n'), 0o644)
 }
 
 func goTestFor(rp proto.Replay) string {
